@@ -5,6 +5,7 @@ import c11_rules
 import validators
 import reader_extra
 import alloc_bounds
+import field_validation
 from vlib.core import VERIF
 
 
@@ -38,6 +39,10 @@ def run(facts, tier):
     obs += o
     rules.append({"rule": "narrow image arithmetic", "instances": len(o), "min": 1,
                   "text": "no 32-bit image field is shifted / multiplied in 32 bits before a size check or allocation (the wrapped value passes the check while the 64-bit capacity does not)"})
+    o = field_validation.obligations(facts)
+    obs += o
+    rules.append({"rule": "reader.field-validated", "instances": len([x for x in o if x["status"] != "info"]), "min": 180,
+                  "text": "every value a reader takes from the image is validated before the object is built (throwing guard, check_* call, validating callee, or a validated derived value) or is a reviewed free field (spec/fields_free.json, one reason each)"})
     o = reader_extra.decoder_bounds(facts)
     obs += o
     rules.append({"rule": "reader.decoder-bounds", "instances": len(o), "min": 2,
